@@ -67,6 +67,8 @@ pub struct Style {
     pub single_quote: Vec<usize>,
     /// prepend an XML declaration
     pub decl: bool,
+    /// which spelling of the declaration (0 = upper-case encoding name, double quotes)
+    pub decl_form: usize,
     /// sites (childless, textless elements) written as <x></x> instead of <x/>  (or vice versa)
     pub flip_empty: Vec<usize>,
     /// by default childless elements are written <x/>
@@ -214,7 +216,15 @@ impl W<'_> {
 pub fn serialise(root: &N, st: &Style) -> String {
     let mut w = W { st, out: String::new(), site: 0 };
     if st.decl {
-        w.out.push_str("<?xml version=\"1.0\" encoding=\"UTF-8\"?>");
+        w.out.push_str(
+            [
+                "<?xml version=\"1.0\" encoding=\"UTF-8\"?>",
+                "<?xml version=\"1.0\" encoding=\"utf-8\"?>",
+                "<?xml version='1.0' encoding='Utf-8' standalone='yes'?>",
+                "<?xml version=\"1.0\"?>",
+                "<?xml version=\"1.0\"  encoding=\"UTF-8\"  ?>\n",
+            ][st.decl_form % 5],
+        );
     }
     let mut declared = Vec::new();
     w.write(root, "", &mut declared, 0);
